@@ -682,4 +682,31 @@ def postOf (A : Pat) (p : Array Nat) (sym : Bool) : Array Nat :=
   if sym then Array.range (A.n + 1) else treePostorder A.n (coletree A.m A.n (permView A p).col)
 
 
+
+/-! ### relabelling a forest -/
+
+/-- descendants are carried over by a relabelling `q` with `et'[q j] = q[et j]` -/
+theorem desc_relabel {n : Nat} {et et' : Array Nat} {q : Nat → Nat}
+    (hq : ∀ j < n, q j < n) (hrel : ∀ j < n, et'.getD (q j) 0 = q (et.getD j 0))
+    {a b : Nat} (h : Desc n et a b) : Desc n et' (q a) (q b) := by
+  induction h with
+  | refl v => exact Desc.refl _
+  | step hu _ ih => exact Desc.step (hq _ hu) (by rw [hrel _ hu]; exact ih)
+
+theorem desc_unrelabel {n : Nat} {et et' : Array Nat} {q : Nat → Nat} (hheap : Heap n et)
+    (hqn : q n = n) (hinj : ∀ i ≤ n, ∀ j ≤ n, q i = q j → i = j)
+    (hrel : ∀ j < n, et'.getD (q j) 0 = q (et.getD j 0))
+    {x y : Nat} (h : Desc n et' x y) : ∀ a ≤ n, q a = x → ∃ b ≤ n, q b = y ∧ Desc n et a b := by
+  induction h with
+  | refl v => intro a ha e; exact ⟨a, ha, e, Desc.refl _⟩
+  | step hu _ ih =>
+    intro a ha e
+    have han : a < n := by
+      rcases Nat.lt_or_eq_of_le ha with h | h
+      · exact h
+      · subst h; rw [hqn] at e; omega
+    obtain ⟨b, hb, hqb, hd⟩ := ih (et.getD a 0) (hheap.lt han).2 (by rw [← e, hrel a han])
+    exact ⟨b, hb, hqb, Desc.step han hd⟩
+
+
 end Slu.Order
